@@ -104,6 +104,14 @@ func v14Build(r *verifrt.R, c *verifrt.Case, mode, flavor string) *v14Session {
 			common[d] = append(common[d], v14Hdr{K: fmt.Sprintf("x-common-%d", i), V: []string{v14Value(rng, 5+rng.IntN(60))}})
 		}
 	}
+	nEx := 0
+	for _, n := range cf.Waves {
+		nEx += n
+	}
+	perEx := r.N(600, 2400) / nEx
+	if perEx < 12 {
+		perEx = 12
+	}
 	idx := 0
 	var total int64
 	for wi, n := range cf.Waves {
@@ -115,7 +123,7 @@ func v14Build(r *verifrt.R, c *verifrt.Case, mode, flavor string) *v14Session {
 					mb = 1000
 				}
 			}
-			e := v14GenExch(rng, cf, idx, wi, flavor, mb, &common)
+			e := v14GenExch(rng, cf, idx, wi, flavor, mb, perEx, &common)
 			total += e.ReqBody.Len + e.RespBody.Len
 			s.ex = append(s.ex, e)
 			idx++
